@@ -1,5 +1,6 @@
 import DoviModel.Model.RpuWrite
 import DoviModel.Props.SourceTie
+import DoviModel.Proofs.PwRpu
 /-! # C02 — reported values are the values encoded; profile / EL classification follows the documented rules -/
 namespace Dovi.C02
 open Dovi
@@ -68,5 +69,42 @@ theorem source_layouts_agree :
   ⟨SourceTie.parse_layout_from_source, SourceTie.write_layout_from_source, SourceTie.bytes_from_source,
    SourceTie.required_from_source, SourceTie.dm_parse_from_source, SourceTie.dm_write_from_source,
    SourceTie.signed_from_source⟩
+
+/-! ## the reported structure and the bitstream determine each other -/
+
+/-- **C02, main theorem**: the parser and the writer are mutually inverse on what the parser accepts.
+(1) Whatever is written for a structure of the parser's shape is reported back as exactly that structure
+(every field, block, count, flag); (2) the bits of an accepted input are exactly the encoding of the reported
+structure (nothing the parser reports comes from anywhere but the corresponding field of the input, and no
+input bit is ignored), for integer coefficient parts below 2^52. Together with `source_layouts_agree` (the field
+widths and orders are the ones in the Rust sources now) and the semantic decode rules below, the reported values
+are the encoded values. -/
+theorem parse_and_write_are_inverse :
+    (∀ (r : Rpu) (bytes : Bytes), writeRpu r = .ok bytes → RpuWf r →
+      ∃ crc, parseRpu bytes = .ok { r with rpu_data_crc32 := crc, modified := false } ∧
+        (r.modified = false → crc = r.rpu_data_crc32)) ∧
+    (∀ (bytes out : Bytes) (r : Rpu), parseRpu bytes = .ok r →
+      (∀ m, r.rpu_data_mapping = some m → m.seSmall = true) → writeRpu r = .ok out → out = bytes) :=
+  ⟨parseRpu_writeRpu, writeRpu_parseRpu⟩
+
+/-- semantic decode rule: L2 `ms_weight` is the 13-bit field read as two's complement -/
+theorem l2_ms_weight_signed (a b c d e f ms : Int) :
+    blockPostParse 2 [a, b, c, d, e, f, ms] = [a, b, c, d, e, f, if ms > 4095 then ms - 8192 else ms] := rfl
+
+/-- semantic decode rule: the L11 whitepoint byte carries `reference_mode_flag` in bit 4 -/
+theorem l11_reference_mode_split (ct wp r2 r3 : Int) :
+    blockPostParse 11 [ct, wp, r2, r3] = (if wp > 15 then [ct, wp - 16, 1, r2, r3] else [ct, wp, 0, r2, r3]) := rfl
+
+/-- every other level reports its fields as read -/
+theorem other_levels_as_read (level : Nat) (raw : List Int) (h2 : level ≠ 2) (h11 : level ≠ 11) :
+    blockPostParse level raw = raw := by
+  unfold blockPostParse
+  split
+  · exact absurd rfl h2
+  · exact absurd rfl h11
+  · rfl
+
+/-- semantic decode rule: 16-bit DM matrix coefficients are two's complement -/
+theorem dm_s16_decode (v : Nat) : Fld.decode .s16 v = if v ≥ 32768 then (v : Int) - 65536 else v := rfl
 
 end Dovi.C02
